@@ -11,4 +11,14 @@ package index
 //verif:modifies nothing
 
 //verif:func SaveState(path, s) (err)
+//verif:never (*Map).Store
 //verif:call[atomic-write] atomicfile.WriteFile requires arg0 == path
+
+// The rollback floor is read from the state FILE on every call: the file is what the
+// cross-process lock (index-state.json.lock) protects; a per-process copy would let one
+// process lower the floor another process has raised.
+//verif:func LoadState(path) (s, err)
+//verif:ensures[reads-the-file-every-time] called("os.ReadFile") && count("os.ReadFile") == 1
+//verif:call[the-state-file-itself] os.ReadFile requires arg0 == path && count("os.ReadFile") == 0
+//verif:never (*Map).Load
+//verif:never (*Map).Store
